@@ -95,7 +95,7 @@ prop('C12',
 prop('C07',
      functions=BSDIFF + LRUFILE + PATCHER_SERIES + [('/pwr/patcher', '(*savingPatcher).skipFile')],
      assumes=['everything C12 assumes', 'A-PROTO'],
-     not_decided='the optimizer itself (rediff.analyzePatch / Optimize are not under contract: grammar of the rewritten stream, target index, mapping choice); output compression')
+     not_decided='that the controls the differ emits reproduce the new file byte for byte (see C12: pieces proved, no single lemma); that Optimize and analyzePatch read the same patch (the mapping table is trusted to describe the stream re-read by Optimize); output compression (external codecs); the input is assumed to be a plain rsync patch (in-context contract of ReadMessage)')
 
 OVERLAY = [('/pwr/overlay', '(*overlayWriter).fresh'), ('/pwr/overlay', '(*overlayWriter).skip'), ('/pwr/overlay', '(*overlayProcessor).write'),
            ('/pwr/overlay', '(*overlayProcessor).Write'), ('/pwr/overlay', 'NewOverlayWriter'), ('/pwr/overlay', '(*overlayWriter).Finalize'),
@@ -148,7 +148,7 @@ prop('C19',
               'frames of the ownership analysis are syntactic: captured variables and the pointers held in them, not what is reachable beyond'],
      not_decided='the round trip itself (archive codecs archive/zip, archive/tar, compress/* are outside /repo); the on-disk state after a kill at an arbitrary point (no crash model in this family: what is proved is that the resume file only ever names an index below which every entry completed); symlink targets, modes')
 
-REDIFF = [('/pwr/rediff', '(*context).analyzePatch')]
+REDIFF = [('/pwr/rediff', '(*context).analyzePatch'), ('/pwr/rediff', '(*context).Optimize')]
 DIFFPIPE = [('/pwr', '(*DiffContext).WritePatch'), ('/pwr', 'CompressWire'), ('/ctxcopy', 'DoBuffer')] + REDIFF
 
 prop('C15',
@@ -176,7 +176,7 @@ LEVEL_TEXT = {
  'C01': {'text': 'Proof of the per-file function-level clauses that diff-then-apply rests on: whole-file-op detection is sound (same size, starts at block 0, spans all blocks, index in range), op <-> message field mapping in both directions, unknown op types are errors, per-file framing is consumed up to the end marker, no compressor is involved exactly when the algorithm is NONE, plus everything proved for C11.', 'design_ref': 'DESIGN.md §5 C01'},
  'C10': {'text': 'Proof (safety sweep with contracts): every slice/index expression, division, make and pool call of the functions on the read paths under contract is in range for arbitrary field values read from a stream; every message loop has a decreasing measure (unread bytes / block index); old-file indices are validated before they reach the container or the pool.', 'design_ref': 'DESIGN.md §5 C10'},
  'C12': {'text': 'Proof of the function-level clauses: Apply reads the add run at OldOffset (seek first), adds byte-wise mod 256, writes the copy run and moves the offset by len(Add)+Seek, depending on nothing else (resume from a saved offset); lrufile never reuses a live slot, reads the chunk of the offset, never hands out bytes beyond the file and reports io.EOF only with a short read; the differ\'s partition/scan-block arithmetic never divides by zero, never sorts an empty partition, tiles the new buffer; every match has its add run before its copy run inside both buffers; Seek is the gap to the next add run.', 'design_ref': 'DESIGN.md §5 C12'},
- 'C07': {'text': 'Proof of the clauses the optimizer\'s output correctness rests on: termination without crash of the differ for all partition settings (C12 arithmetic), bsdiff series consumed and skipped by their grammar in the patcher, old-file index validated before use. The optimizer\'s own functions are not under contract.', 'design_ref': 'DESIGN.md §5 C07'},
+ 'C07': {'text': 'Proof of the clauses the optimizer\'s output correctness rests on: the rewritten stream keeps the per-file grammar (header with the file\'s own index, bsdiff header naming the mapped old file, one end marker per series, nothing after it), unmapped files are copied op by op, the differ is handed the old and the new file both rewound to offset 0 and in this order; the mapping is chosen among validated old-file indices by a total order; termination without crash of the differ for all partition settings (C12 arithmetic); bsdiff series consumed and skipped by their grammar in the patcher.', 'design_ref': 'DESIGN.md §5 C07'},
  'C14': {'text': 'Proof (unbounded in file sizes, window contents and write partition): every SKIP covers only bytes where the new content equals the old file at the current read offset, every FRESH is exactly the new content at the read offset, each window is fully tiled and the read offset advances by the window length with the reader kept aligned; the header is written exactly at overlay offset 0 so a resumed session continues the same stream; the end marker follows a flush; the applier moves by Len on SKIP, writes Data on FRESH and stops at the marker; a checkpoint reads its offsets after flush+sync and Resume repositions reader, stage file and overlay writer at exactly those offsets without truncating.', 'design_ref': 'DESIGN.md §5 C14, App. A.3'},
  'C13': {'text': 'Proof of wharf\'s side: a message is written as uvarint(len) then body with a large-enough varint buffer; ReadMessage consumes at least one byte, never more than the stream holds, regrows its buffer to at least the declared length, and resets the message before decoding on every path; the reader offset counts every delivered byte; the three-state save protocol (ask only from idle, keep the checkpoint given, pop exactly once with Offset = reader offset); Resume leaves reader and source at checkpoint.Offset (discarding the gap, rejecting a source that resumed later) and resets the save state; no compressor is involved exactly when the algorithm is NONE.', 'design_ref': 'DESIGN.md §5 C13'},
  'C05': {'text': 'Proof of the function-level clauses: kind checks do not follow symlinks; a missing / not-a-directory entry is a wound, never a plain error; every wound offered for a file names it and has 0 <= Start <= End; a byte count different from the signed size is always wounded (shorter or longer); the aggregator never loses coverage and flushes before closing; the fail-fast consumer returns nil only after a clean closed stream; block verdicts decide exactly hash equality over the signed block range.', 'design_ref': 'DESIGN.md §5 C05'},
